@@ -102,6 +102,18 @@ CHECKS = {
         "checked with independent decoders; bounded differential execution.",
    technique="Lean 4 proof (shard_partition, dedupe_commutes, ...) + correspondence run with independent gzip/bzip2 decoders",
    design="6/C06"),
+ "C07": dict(
+   text="Kernel-checked Lean theorems over a transcription of wrap_lines() (same variables and loops, DecodeUTF8 = the C12 model): "
+        "for every valid UTF-8 line, width >= 1, delimiter list and -s setting the function terminates and the pieces with the "
+        "withheld runs concatenate to exactly the line; every piece is at most WIDTH bytes or a single code point; no piece or run "
+        "splits a code point; withheld runs consist of delimiters only (empty without -s); there is always at least one piece; an "
+        "identity child reproduces the input line for line and line counts always match. Tied to the real wrap_lines (main file "
+        "included with main renamed) on 250k exhaustive/random cases with the property itself as oracle, and to bin/foldfilter "
+        "with cat.",
+   note="Trusted: Lean kernel + standard axioms; hand-written model tied by bounded differential execution; the child is a function "
+        "on lines (threads/pipes are C05); strip_cr argument of the reader thread regenerated from the source.",
+   technique="Lean 4 proof (wrapLines_spec loop invariant with termination measure) + correspondence run",
+   design="6/C07"),
  "C08": dict(
    text="Kernel-checked Lean theorems over a model of b64filter's feeder/reader bookkeeping on the C09 codec: the line count sent "
         "to the reader is never the end marker 0; feeding a document and reassembling the same lines gives back the document "
@@ -124,6 +136,18 @@ CHECKS = {
         "excepted; bounded differential execution.",
    technique="Lean 4 proof (filter lemmas, subtract_spec, ccdedupe_spec via C13) + correspondence run",
    design="6/C18"),
+ "C19": dict(
+   text="Kernel-checked Lean theorems: process_unicode's two-buffer main loop prints, for every flag combination and every line "
+        "index, exactly lower/flatten/NFKC applied in that order (ICU's lower, NFKC, u_isspace as parameters), identity with no "
+        "flag; Flatten::Apply over UTF-16 units equals the code-point level specification (leftmost, multi-character alternatives "
+        "before the single-character one, copy otherwise) for every sequence of scalar values, so each code point incl. "
+        "supplementary planes is emitted exactly once; untargeted text passes through. The rule tables of all five languages are "
+        "regenerated from the C++ data structures on every run and checked to be BMP-only. Tied to Flatten::Apply in-process and "
+        "to bin/process_unicode for 8 flag sets x 5 languages per line index.",
+   note="Trusted: Lean kernel + standard axioms; ICU (toLower, NFKC, u_isspace, UnicodeString) as parameters whose values come "
+        "from the same ICU build; translator for the rule tables; bounded differential execution.",
+   technique="Lean 4 proof (pipeline_per_line, apply_eq_spec) over generated rule tables + correspondence run",
+   design="6/C19"),
 }
 
 NOT_APPLICABLE = []
